@@ -40,6 +40,15 @@ def litMulDiv (k : Int) (e : Expr) : Expr :=
   let sp := spOf e
   .grouped sp (.infix sp .int .div (.infix sp .int .mul e (.int sp k)) (.int sp k))
 
+/-- IEEE-754 bit patterns of the useless values 42.0, 69.0, 4711.0 of the float literal rules. -/
+def uselessFloatBits : List Nat := [4631107791820423168, 4634555860285128704, 4661901813979545600]
+
+/-- `(x op₁ k op₂ k)` on a float literal (only built for integer-valued floats): the three float
+literal rules are `(.add, .sub)`, `(.sub, .add)`, `(.mul, .div)`. -/
+def litFloat (op₁ op₂ : InfixOp) (kbits : Nat) (e : Expr) : Expr :=
+  let sp := spOf e
+  .grouped sp (.infix sp .float op₂ (.infix sp .float op₁ e (.float sp kbits)) (.float sp kbits))
+
 /-- `!!(b)` on a bool literal -/
 def notNot (e : Expr) : Expr :=
   let sp := spOf e
@@ -146,6 +155,8 @@ def ifInverted (c' : Expr) (t' : Block) (e' : Option Block) : Expr → Expr
 def exprVariants (te : Expr → Expr) (tb : Block → Block) (k : Int) (static : Bool) (e : Expr) : List Expr :=
   match e with
   | .int .. => [e, litAddSub k e, litSubAdd k e, litMulDiv k e]
+  | .float .. => [e] ++ uselessFloatBits.flatMap fun kb =>
+      [litFloat .add .sub kb e, litFloat .sub .add kb e, litFloat .mul .div kb e]
   | .bool .. => [e, notNot e]
   | .grouped .. => [e, groupAgain e, groupBlock e]
   | .cast .. => [e, castTwice e]
